@@ -1932,17 +1932,20 @@ impl SignedDuration {
             }),
             Err(err) => {
                 let dur = err.duration();
-                let dur =
-                    SignedDuration::try_from(dur).with_context(|| {
+                // We negate the seconds before converting them to a signed
+                // integer, and not after, because the magnitude of the
+                // minimum number of seconds isn't representable as a positive
+                // signed integer.
+                let secs = i64::try_from(-i128::from(dur.as_secs()))
+                    .map_err(|_| {
                         err!(
-                        "unsigned duration {dur:?} for system time before \
-                         Unix epoch overflowed signed duration"
-                    )
+                            "unsigned duration {dur:?} for system time before \
+                             Unix epoch overflowed signed duration"
+                        )
                     })?;
-                dur.checked_neg().ok_or_else(|| {
-                    err!("negating duration {dur:?} from before the Unix epoch \
-                     overflowed signed duration")
-                })
+                // OK because `subsec_nanos` is always less than 1_000_000_000.
+                let nanos = -(dur.subsec_nanos() as i32);
+                Ok(SignedDuration::new_unchecked(secs, nanos))
             }
         }
     }
